@@ -101,6 +101,14 @@ func getHistoricalFilePaths(current string, storage Storage) ([]string, error) {
 		}
 		filenames = append(filenames, filepath.Join(historyDir, file.Name()))
 	}
+	// The current key may have been destroyed while rotated keys are kept. Do not list a missing
+	// current file then, otherwise reading "all keys" fails and the rotated keys are never offered.
+	// (With no history at all the current path is kept so that callers see the usual "not exist" error.)
+	if len(filenames) > 1 {
+		if exists, err := storage.Exists(current); err == nil && !exists {
+			filenames = filenames[1:]
+		}
+	}
 	return filenames, nil
 }
 
